@@ -19,7 +19,8 @@ one() {
   rm -rf $w $out /tmp/nbc_sweep_$id
 }
 export -f one
-ls -d seeded/*_m* | grep "$pat" | xargs -P $jobs -I{} bash -c 'one {}' | sort > /tmp/sweep_new.txt
+# (each result is also appended to /tmp/sweep_progress.txt as soon as it is known: tools/seed_merge.sh merges a partial sweep)
+ls -d seeded/*_m* | grep "$pat" | xargs -P $jobs -I{} bash -c 'one {}' | tee -a /tmp/sweep_progress.txt | sort > /tmp/sweep_new.txt
 # keep earlier results of changes that were not re-run now
 touch seeded/SWEEP.txt
 awk 'NR==FNR {seen[$1]=1; print; next} !($1 in seen)' /tmp/sweep_new.txt seeded/SWEEP.txt | sort > /tmp/sweep_merged.txt
